@@ -987,6 +987,45 @@ func ruleWireTally(w *World, r *RuleResult) {
 		r.undecided("print", pos, "could not find the two result lines (Printf with two %d)")
 		return
 	}
+	// the battle of a round is the library's: Run() after the spawns, and the tool never steps the
+	// simulator itself (its own loop would decide the cycle limit and the stop conditions)
+	{
+		runAfterSpawn, stepsItself := false, ""
+		for _, f := range w.Funcs {
+			if f.Pkg != w.SCmd || w.covered(f) {
+				continue
+			}
+			fps, err := w.Paths(f)
+			if err != nil {
+				continue
+			}
+			for _, p := range fps {
+				spawned := false
+				for i := range p.Events {
+					e := &p.Events[i]
+					if e.Kind != "call" {
+						continue
+					}
+					name := e.Method
+					if e.Callee != nil {
+						name = e.Callee.Name()
+					}
+					switch name {
+					case "SpawnWarrior":
+						spawned = true
+					case "Run":
+						if spawned {
+							runAfterSpawn = true
+						}
+					case "RunCycle":
+						stepsItself = c.posOf(e)
+					}
+				}
+			}
+		}
+		r.check(runAfterSpawn, "battle/run", pos, "each round spawns the warriors and then calls Run()", "no round calls Run() after spawning the warriors")
+		r.check(stepsItself == "", "battle/no-own-loop", pos+stepsItself[:0], "the tool never steps the simulator itself", "the tool calls RunCycle itself: the battle it plays is decided by its own loop (its bound, its stop test), not by the cycle limit and stop conditions of Run()")
+	}
 	names := map[string][]string{} // one counter may serve several roles (a shared tie counter printed on both lines)
 	roles := []string{"win1", "tie1", "win2", "tie2"}
 	k := 0
